@@ -102,6 +102,16 @@ def invoke (cfg : Option Config) (ms : List Method) (cr : Creator) (fn : String)
             | .nbtx => .reach (.method m false)
             | .query => .reach (.method m true)
 
+/-- the robot's four lists in a batch (`batchExecute`, after the transactions): answers to swaps
+    begun elsewhere, keys completing swaps begun here, and the same for multi-swaps -/
+inductive Section | swapAnswers | swapKeys | multiAnswers | multiKeys
+deriving Repr, DecidableEq
+
+/-- `batchExecute`: a list is processed only while the switch in force leaves its kind on -/
+def sectionRuns (c : Config) : Section → Bool
+  | .swapAnswers | .swapKeys => !(c.hasOptions && c.disableSwaps)
+  | .multiAnswers | .multiKeys => !(c.hasOptions && c.disableMultiSwaps)
+
 /-- one task of `executeTasks` (after `invoke` reached `.executeTasks`): method lookup, the
     disabled test, then the method body (read-only stub for queries since fix edf0100); a method
     without a sender cannot be a task -/
